@@ -125,7 +125,7 @@ func init() {
 		ID: "C14",
 		Harnesses: []HarnessSpec{
 			{Name: "VerifH_binhdr", Covers: []string{"padded", "unpadded"}},
-			{Name: "VerifH_outgoing", Covers: []string{"custom", "custom-bin", "details-bin"}},
+			{Name: "VerifH_outgoing", Covers: []string{"custom", "custom-bin", "details-bin", "grpc-prefixed-custom"}},
 			{Name: "VerifH_incoming", Covers: []string{"padded", "unpadded"}},
 		},
 		Bounds: map[string]string{
